@@ -52,6 +52,17 @@ CHECKS["C14"] = ("abstract construction of generic box instances and abstract ex
     "Decides reconstruction completeness: for every concrete box class and every combination of its finite constructor parameters, subs and lambdify (including the inherited generic rebuilds) either return the box "
     "or bind against its constructor, keep name, dom, cod, dagger flag and mixedness, and carry rsubs / lambdify applied to the old data; free_symbols comes from the same data the arrays read and is the union "
     "over boxes; diagrams rebuild layer by layer with the same whiskers. Numeric commutation on concrete floats (sympy/numpy interplay) is not decided.", TB, "DESIGN.md §4 C14")
+CHECKS["C11"] = ("constant folding of the literal gate tables and closed-form array properties lifted from the syntax tree (whitelisted numeric vocabulary) compared with tket reference matrices on sample phases; abstract execution of rotation daggers; flag-dagger typestate of array readers",
+    "Decides that every literal gate table and closed-form rotation array of gates.py, read in the [in, out] order in which arrays are interpreted, equals the tket matrix of that name (phases in full turns), that Controlled builds "
+    "diag(1, U), that self-adjoint flags sit only on Hermitian tables, that rotations dagger by phase negation with M(-φ) = M(φ)†, that every reader of a flag-daggered gate's array handles the flag, and that kets/bras/bits are basis "
+    "tensors. With C08/C09 this gives the unitary of a pure circuit and its dagger. Not decided: rewire; floating-point error.", TB, "DESIGN.md §4 C11")
+CHECKS["C15"] = ("shape rules for the product rule; constant folding of each rotation class's grad method as a closed term in a two-semantics reference algebra (pure matrices / doubled maps with Born rule) compared with the 5-point-stencil derivative of the class's own closed-form array; abstract execution of scalar gradients",
+    "Decides the product-rule shape of Diagram.grad and the jacobians, totality and guards of the per-class grad methods, and — for Rx, Ry, Rz, CU1, CRz, CRx in pure and mixed mode — that the gradient term evaluates to the derivative of the "
+    "class's own array (shift and factor constants), and that mixed scalars keep mixedness. Known findings (test-pinned): pure scalars in mixed mode, ZX spider gradients under the standard interpretation. "
+    "Numeric derivatives of arbitrary circuits follow from these and are not decided.", TB, "DESIGN.md §4 C15")
+CHECKS["C16"] = ("constant folding of every gate2zx entry as a closed ZX term in a reference algebra (standard interpretation, phases in full turns) compared for proportionality with tket reference matrices on sample phases; abstract execution of generator daggers",
+    "Decides that each entry of zx.gate2zx (kets, bras, Rz, Rx, CRz, CRx, CU1, H, X, Y, Z, CZ, CX, scalars) denotes the gate up to a non-zero scalar with the right arity, that circuit2zx is the rigid functor qubit -> one wire, "
+    "and that spiders / scalars / H dagger as the standard interpretation requires. Composites follow from functoriality (C04, C09).", TB, "DESIGN.md §4 C16")
 NOT_YET = "check not built yet in this round (static rules designed in DESIGN.md §4; will be claimed when the rule module lands)"
 NOT_APPLICABLE = {("C%02d" % i): NOT_YET for i in range(1, 21) if ("C%02d" % i) not in CHECKS}
 NOTES = ("All checks are static analyses of /repo/discopy's source (python -m sa.check <id>); exit 0 / 1 (VIOLATION) / 2 (ANALYSIS-ERROR). "
